@@ -158,13 +158,13 @@ var properties = map[string]*propDef{
 		Assumptions: []string{
 			"model: per region, controller = max authority, ties to the earliest successful open; a transfer is reported iff the controller or the controller's authority changes; shared mode authorises every gate whose authority is >= the controller's",
 			"a gate bridging two existing regions, SetAuthority on a released gate and the error kind of a duplicate subject are outside the statement (skipped / accepted as implemented)",
-			"the write-path part of the property (only authorised writes persisted and relayed) is exercised through cesium writers by C20's engine",
+			"the write-path part of the property (only authorised writes persisted and relayed, refused writes leave no trace) is decided through real cesium writers by the cesium-stream unit (C20's engine, run here as well): writers that lose control to an interloper mid-stream and regain it, virtual channels under shared control with authority changes, and a probe write right after the last authorised sample",
 		},
 		RequiredProbes: []string{"transfers_checked", "equal_authority_contenders", "double_release", "history_ops_checked", "yield_lock"},
 		Units: []unit{{
 			Name: "cesium-control", Module: "cesium", Package: "./internal/control", Passes: allPasses,
 			QuickBudget: 20 * time.Second, QuickWorkers: 8, ThoroughBudget: 10 * time.Minute, ThoroughWorkers: 16,
-		}},
+		}, cesiumUnit("cesium-stream", "c20")},
 	},
 	"C20": {
 		Level: "exploration",
@@ -197,6 +197,22 @@ var properties = map[string]*propDef{
 		}, {
 			Name: "aspen-cluster", Module: "aspen", Package: ".", Passes: allPasses, Engines: []string{"cluster"},
 			QuickBudget: 25 * time.Second, QuickWorkers: 8, ThoroughBudget: 15 * time.Minute, ThoroughWorkers: 16,
+		}},
+	},
+	"C12": {
+		Level: "exploration",
+		Rule: "engine c12-seq: 2-4 nodes (plus optionally a member that is not a running node, with a zero or non-zero heartbeat, known to one node) with initial views that are complete, disjoint, a chain or random; seeded sequences of exchange(i,j) [GossipOnceWith], tick(i), host state change(i), GossipOnce(i) with the production peer choice, exchange with the ack2 message lost, restart(i) from the persisted copy (generation bump); after every operation every node's view is compared with the newest records it held before; finally every unordered pair exchanges once in seeded order and direction and all views must be identical and complete. engine c12-conc: the same operations issued by one task per node under the seeded scheduler (random / sticky / PCT), monotonicity sampled after every task step, then the same final phase. non-trivial = >=2 operations (seq) / >=3 (conc); distinct = hash of the case shape (+ scheduler trace hash)",
+		Real:  []string{"aspen/internal/cluster/gossip (sync/ack/ack2, GossipOnce, GossipOnceWith, incrementHostHeartbeat), aspen/internal/cluster/store (Merge, SetNode, observable store), aspen/internal/node, x/go/version (Heartbeat), x/go/store, freighter/go/mock unary network — real code, harness compiled into the package via -overlay"},
+		Stub:  []string{"timers: exchanges and ticks are issued by the script instead of signal.GoTick", "restart: emulates cluster.Open on an existing store (load persisted state, Heartbeat.Restart on the host record); the persisted copy follows cluster.goFlushStore's rule (flushed when the member set or a non-heartbeat field changes)", "goroutine scheduler: verifsim/sim at instrumented lock/atomic/channel points (c12-conc)"},
+		Assumptions: []string{
+			"a member changes its own record only together with a heartbeat advance, so (member, heartbeat) identifies one record; a view may only hold records the member published",
+			"a restart may forget what the node learnt about OTHER members since its last flush (its monotonicity baseline for them restarts); its own record must supersede via the generation bump",
+			"the final phase performs exactly one exchange per unordered pair (the statement's premise), with no ticks in between",
+		},
+		RequiredProbes: []string{"exchange", "tick", "state_change", "disjoint_initial_views", "zero_heartbeat_member", "converged", "concurrent_case"},
+		Units: []unit{{
+			Name: "aspen-gossip", Module: "aspen", Package: "./internal/cluster/gossip", Passes: allPasses,
+			QuickBudget: 20 * time.Second, QuickWorkers: 8, ThoroughBudget: 10 * time.Minute, ThoroughWorkers: 16,
 		}},
 	},
 	"C13": {
